@@ -67,6 +67,24 @@ def runtime_program(rng):
         + rng.choice(["", "\n", "\n// é"])
 
 
+_OPENERS = ["", "", "fun f() {\n  ", "foo(", "let x = [1,\n ", "if c {\n g(", "match m {\n  A => ", "(", "test t { assert(h(\n"]
+
+
+def eof_after_token(rng, t):
+    toks = [k for k in T.tokens(t) if k[2] != "ws"]
+    multi = [k for k in toks if "\n" in t[k[0]:k[1]].rstrip("\n")]
+    if multi and rng.random() < 0.8:
+        a, b, _k = rng.choice(multi)
+    elif toks:
+        a, b, _k = rng.choice(toks)
+    else:
+        return t
+    if rng.random() < 0.5:
+        # keep the text before the token: whatever was open there stays open
+        return t[:b] + rng.choice(["", "", "\n", "  ", "\n\n"])
+    return rng.choice(_OPENERS) + t[a:b] + rng.choice(["", "", "\n", " "])
+
+
 def gen_cases(tier, seed):
     for c in F.committed(ID):
         yield c
@@ -86,8 +104,16 @@ def gen_cases(tier, seed):
     table = [(w, c) for w, c in CLASSES if c != "runtime"]
     stream = T.texts(rng2, None, classes=table, max_len=5000)
     while True:
-        if rng2.random() < 0.14:
+        x = rng2.random()
+        if x < 0.14:
             yield {"cls": "runtime", "src": T.sanitize(runtime_program(rng2)), "session": True}
+        elif x < 0.24:
+            # the text stops right after a token (preferably a literal or comment that spans lines): "reached the
+            # end of the file" errors point at that last token
+            cls, t = next(stream)
+            t = T.sanitize(T.multiline_strings(rng2, t, p=0.9))
+            # in the form the CLI reads a file, so that `check --json` is compared diagnostic by diagnostic
+            yield {"cls": "eof_after_token", "src": F.cli_normalize(eof_after_token(rng2, t))}
         else:
             cls, t = next(stream)
             if rng2.random() < 0.35 and cls.startswith(("corpus", "snippet")):
@@ -281,7 +307,11 @@ def run_batch(cases):
             texts[i] = t
             keys, bad = judge_positions(t, collect(resp))
             perr = bool(resp.get("parse_errors"))
-            want_cli = bool(bad) or F.sampled(src, CLI_PERCENT, "c23")
+            # exported line numbers can only disagree with the offsets in a way the line/column rules cannot see when
+            # a diagnostic spans lines: those texts always go through the CLI, the others on a sample
+            multi = any(d["pos"][2] != d["pos"][3] for d in (resp.get("parse_errors") or []) + (resp.get("diagnostics") or [])
+                        if isinstance(d.get("pos"), list) and len(d["pos"]) == 6)
+            want_cli = bool(bad) or multi or F.sampled(src, CLI_PERCENT, "c23")
             cj_bad = []
             if want_cli and (perr or resp.get("diagnostics")):
                 # `garden check` works on the line-normalised text (LF endings, final newline added); only when
